@@ -135,7 +135,7 @@ theorem runProgramOuter_spec {runF : RunF} (HG : HypG runF) (HA : HypA runF) (lf
   obtain ⟨h1, h2, h3⟩ := ha
   have hr := h2.regs
   simp only [Vm.regs, Regs.mk.injEq, outerEnter] at hr
-  have hcs4 : s4.callStack = [⟨none, [], none, 0, 0, 0, 0, 0⟩] := by simpa [outerEnter, h0] using h2.cs
+  have hcs4 : s4.callStack = [⟨none, [], [], 0, 0, 0, 0, 0⟩] := by simpa [outerEnter, h0] using h2.cs
   -- after the deferred pop the state is `s` again, whatever happened to prg/sb in between
   have fin1 : ∀ t : Vm, t.sp = s4.sp → t.stash = s4.stash → t.privEnv = s4.privEnv → t.callStack = s4.callStack →
       t.tryStack = s4.tryStack → t.iterStack = s4.iterStack → t.refStack = s4.refStack →
